@@ -4,6 +4,7 @@ import (
 	"context"
 	"crypto/sha1"
 	"encoding/hex"
+	"encoding/json"
 	"fmt"
 	"math/rand"
 	"os"
@@ -33,7 +34,118 @@ import (
 // One case = (program, engine, sketch); observation = SHA-1 of the SVG bytes of every render in the run.
 func main() {
 	totalgen.MaybeWorker()
+	if os.Getenv("C25_SEQ_WORKER") != "" {
+		seqWorker()
+		return
+	}
 	hl.Main("C25", run)
+}
+
+// seqWorker: a fresh process that renders the diagrams given on stdin (one JSON list) one after another and prints
+// the results (hash + text of the last one).  Used by the history stream: B after A in one process vs B alone.
+func seqWorker() {
+	var in []struct {
+		Src    string `json:"src"`
+		Engine string `json:"engine"`
+		Sketch bool   `json:"sketch"`
+	}
+	if err := json.NewDecoder(os.Stdin).Decode(&in); err != nil {
+		fmt.Fprintln(os.Stderr, err)
+		os.Exit(2)
+	}
+	var last string
+	for _, c := range in {
+		last = render(cfg{src: c.Src, engine: c.Engine, sketch: c.Sketch})
+	}
+	os.Stdout.WriteString(last)
+}
+
+func renderSeqFresh(cs []cfg) (string, error) {
+	type jc struct {
+		Src    string `json:"src"`
+		Engine string `json:"engine"`
+		Sketch bool   `json:"sketch"`
+	}
+	var in []jc
+	for _, c := range cs {
+		in = append(in, jc{c.src, c.engine, c.sketch})
+	}
+	b, _ := json.Marshal(in)
+	ctx, cancel := context.WithTimeout(context.Background(), 10*time.Minute)
+	defer cancel()
+	cmd := exec.CommandContext(ctx, os.Args[0])
+	cmd.Env = append(os.Environ(), "C25_SEQ_WORKER=1")
+	cmd.Stdin = strings.NewReader(string(b))
+	out, err := cmd.Output()
+	if err != nil {
+		return "", fmt.Errorf("render worker: %v", err)
+	}
+	return string(out), nil
+}
+
+// diagrams that touch process-wide render state …
+var historyA = []string{
+	"p: {shape: rectangle; style.3d: true; style.multiple: true}\nq: {shape: hexagon; style.3d: true; style.multiple: true}\np -> q\n",
+	"l1: |latex \\definecolor{accent}{rgb}{1,0,0} \\color{accent} x^2 |\nl2: |latex \\definecolor{red}{rgb}{0,0,1} \\color{red} y |\n",
+	"l3: |latex \\newcommand{\\foo}{\\alpha+\\beta} \\foo |\nl4: |latex \\DeclareMathOperator{\\op}{op} \\op(x) |\n",
+	"m: |md # Title\n- a\n- b\n|\nc: |go\nfunc f() {}\n|\ng: {style.fill: \"linear-gradient(#f00, #00f)\"}\nm -> c -> g: {style.animated: true}\nx: {shape: cylinder; style.multiple: true; style.shadow: true}\n",
+	"vars: {d2-config: {theme-id: 3; sketch: true}}\na: {shape: person}\nb: {shape: cloud; style.multiple: true}\na -> b\nt: {shape: sql_table; id: int}\n",
+}
+
+// … and diagrams whose bytes would show it
+var historyB = []string{
+	"o: {shape: oval; style.multiple: true}\nh: {shape: hexagon; style.multiple: true}\nq: {shape: queue; style.multiple: true}\ncy: {shape: cylinder; style.multiple: true}\n",
+	"u1: |latex \\color{red} y |\nu2: |latex \\frac{a}{b} |\n",
+	"u3: |latex \\color{accent} x^2 |\n",
+	"u4: |latex \\op(x) + \\foo |\n",
+	"a -> b: hello\nc: {shape: diamond; style.multiple: true}\nd: |md **bold** |\n",
+}
+
+func kindOf(t string) string {
+	if strings.HasPrefix(t, "<?xml") || strings.HasPrefix(t, "<svg") {
+		return "svg"
+	}
+	return strings.SplitN(t, ":", 2)[0]
+}
+
+// history stream: B rendered after A in one fresh process vs B rendered alone in a fresh process
+func runHistory(c *hl.Ctx, pairs [][2]cfg) {
+	type res struct{ after, fresh string }
+	out := make([]res, len(pairs))
+	var mu sync.Mutex
+	freshCache := map[string]string{}
+	parallel(len(pairs), 4, func(i int) {
+		a, b := pairs[i][0], pairs[i][1]
+		after, err := renderSeqFresh([]cfg{a, b})
+		if err != nil {
+			after = "worker-error: " + err.Error()
+		}
+		key := fmt.Sprint(b.src, b.engine, b.sketch)
+		mu.Lock()
+		fresh, ok := freshCache[key]
+		mu.Unlock()
+		if !ok {
+			fresh, err = renderSeqFresh([]cfg{b})
+			if err != nil {
+				fresh = "worker-error: " + err.Error()
+			}
+			mu.Lock()
+			freshCache[key] = fresh
+			mu.Unlock()
+		}
+		out[i] = res{after, fresh}
+	})
+	for i, p := range pairs {
+		o := map[string]any{"after": sha(out[i].after), "fresh": sha(out[i].fresh), "kind": kindOf(out[i].fresh)}
+		if out[i].after != out[i].fresh {
+			foundDiff = true
+			o["diff"] = firstDiff(out[i].fresh, out[i].after)
+		}
+		c.Count("history")
+		c.Emit(map[string]any{"k": "history", "in": map[string]any{
+			"a": map[string]any{"src": p[0].src, "engine": p[0].engine, "sketch": p[0].sketch},
+			"b": map[string]any{"src": p[1].src, "engine": p[1].engine, "sketch": p[1].sketch}}, "out": o})
+	}
 }
 
 type cfg struct {
@@ -299,6 +411,10 @@ func stripTimes(s string) string {
 }
 
 var corpus = []string{
+	"p: {shape: rectangle; style.3d: true; style.multiple: true}\no: {shape: oval; style.multiple: true}\nh: {shape: hexagon; style.multiple: true; style.3d: true}\np -> o -> h\n",
+	"o: {shape: oval; style.multiple: true}\nq: {shape: queue; style.multiple: true}\ncy: {shape: cylinder; style.multiple: true}\n",
+	"l1: |latex \\definecolor{red}{rgb}{0,0,1} \\color{red} y |\n",
+	"u1: |latex \\color{red} y |\nu2: |latex \\frac{a}{b} |\n",
 	"a -> b -> c\nb -> d\n",
 	"x: {shape: sql_table; id: int {constraint: primary_key}; n: text}\ny: {shape: class; +f: int; -g(): void}\nx.id -> y\n",
 	"a: {b: {c; d}; e}\na.b.c -> a.e: lbl\nf: |md # Title\n- item ${q}\n|\n",
@@ -313,6 +429,15 @@ var corpus = []string{
 
 func run(c *hl.Ctx) error {
 	if cs := c.ReplayCase(); cs != nil {
+		if cs["k"] == "history" {
+			in := cs["in"].(map[string]any)
+			mk := func(m map[string]any) cfg {
+				sk, _ := m["sketch"].(bool)
+				return cfg{src: m["src"].(string), engine: m["engine"].(string), sketch: sk}
+			}
+			runHistory(c, [][2]cfg{{mk(in["a"].(map[string]any)), mk(in["b"].(map[string]any))}})
+			return nil
+		}
 		if cs["k"] == "race" {
 			var batch []cfg
 			for i, s := range corpus {
@@ -345,6 +470,20 @@ func run(c *hl.Ctx) error {
 	}
 	runBatch(c, batch, seqR, concR)
 	c.Count("corpus")
+	if !race {
+		// history: every A × B in the thorough tier, a rotating diagonal in the quick tier
+		var pairs [][2]cfg
+		for i, a := range historyA {
+			for j, b := range historyB {
+				if c.Quick() && (i+int(c.Seed))%len(historyB) != j && !(i == 0 && j == 0) && !(i == 1 && j == 1) {
+					continue
+				}
+				eng := []string{"dagre", "elk"}[(i+j)%2]
+				pairs = append(pairs, [2]cfg{{src: a, engine: eng, sketch: i == 4}, {src: b, engine: eng, sketch: false}})
+			}
+		}
+		runHistory(c, pairs)
+	}
 	if c.Search && foundDiff {
 		return nil
 	}
